@@ -1,16 +1,16 @@
-\* C11: in-memory scorch (introducer only, unsafe batches, no merger: ForceMerge excluded - see Proto_hz_fmmem.cfg)
+\* C11: in-memory scorch (introducer only, unsafe batches, no merger loop: ForceMerge is rejected at once)
 SPECIFICATION Spec
 CONSTANTS
   Callers = {c1, c2}
   MaxOps = 2
   LateOps = 1
-  Ops = {"batchS", "batchU", "search", "fielddict", "copyto", "doccount", "stats", "close"}
+  Ops = {"batchS", "batchU", "search", "fielddict", "forcemerge", "copyto", "doccount", "stats", "close"}
   Engine = "mem"
   MaxMerges = 0
   PauseMode = "none"
   HazFD = FALSE
-  HazClose2 = FALSE
-  HazFMMem = FALSE
+  LegacyClose2 = FALSE
+  LegacyFMMem = FALSE
 SYMMETRY Symm
 VIEW View
 INVARIANTS TypeOK RWExclusion LockBalanced NoPanic ContractHolds
